@@ -438,12 +438,13 @@ def check(an, rep, tier):
                     else:
                         _st3 = 'unknown'
                     rep.add('P-endpoints', _f.qualname, 'the candidate '
-                            'appended to %s at line %d is the one whose '
+                            'appended to %s is the one whose '
                             'absence was tested (%s)' % (
-                                _L, _c.lineno, ast.unparse(_a.left)), _st3,
+                                _L, ast.unparse(_a.left)), _st3,
                             '' if _st3 == 'ok' else 'tested %s, appended %s'
                             % (ast.unparse(_a.left),
-                               ast.unparse(_c.args[0])))
+                               ast.unparse(_c.args[0])),
+                            line=_c.lineno, file=_f.module.path)
     rep.floor('S-layout', 3, 'beam layouts')
     rep.floor('V-provenance', 4, 'value provenance')
     rep.floor('U-ledger', 4, 'beam ledger')
